@@ -46,40 +46,70 @@ def spec_key(e):
     raise TypeError(type(e))
 
 
-def canon_key(e, order):
-    """the intended sort key of the *canonical form* of e under the ordering (children sorted by the ordering, a sum over an
-    unconditioned joint simplified), restated independently of the code under test"""
+def canon_form(e, order):
+    """A small normal form of the *canonical form* of e under the ordering, restated independently of the code under test: products
+    flattened with One dropped (Zero absorbing, a single factor unwrapped), a sum over an unconditioned joint marginalised (also
+    through nested sums), x / 1 = x, x / x = 1.  Used only to decide whether two factors can tie on their sort key (class K1)."""
     dsl = concrete.y0mod("y0.dsl")
     # note: canonicalize() passes a given ordering through _upgrade_ordering, which sorts it by name: the effective ordering is
     # always the alphabetical one (an admissible ordering), whatever the caller supplies
     pos = {n: i for i, n in enumerate(sorted(order))}
-    first = lambda vs: min((v.name for v in vs), key=lambda n: pos.get(n, 99))
-    if isinstance(e, dsl.PopulationProbability):
-        return (-1, str(e.population), first(e.children))
+    srt = lambda names: tuple(sorted(names, key=lambda n: pos.get(n, 99)))
     if isinstance(e, dsl.Probability):
-        return (0, first(e.children))
+        pop = str(e.population) if isinstance(e, dsl.PopulationProbability) else None
+        return ("P", pop, srt(v.name for v in e.children), srt(v.name for v in e.parents), tuple(sorted(str(v) for v in (*e.children, *e.parents))))
     if isinstance(e, dsl.Sum):
-        b = e.expression
-        if isinstance(b, dsl.Probability) and not b.parents:
-            rest = [c for c in b.children if c.get_base() not in e.ranges]
-            extra = [r for r in e.ranges if r not in {c.get_base() for c in b.children}]
-            if not rest:
-                return (4, "1") if not extra else (1, 4, "1")
-            inner = ((-1, str(b.population), first(rest)) if isinstance(b, dsl.PopulationProbability) else (0, first(rest)))
-            return inner if not extra else (1, *inner)
-        return (1, *canon_key(b, order))
+        b = canon_form(e.expression, order)
+        ranges = {r.name for r in e.ranges}
+        if b[0] == "P" and not b[3]:
+            rest = [c for c in b[2] if c not in ranges]
+            extra = frozenset(ranges - set(b[2]))
+            base = ("1",) if not rest else ("P", b[1], tuple(rest), (), ())
+            return ("S", extra, base) if extra else base
+        return ("S", frozenset(ranges), b)
     if isinstance(e, dsl.Product):
-        return (2, *sorted(canon_key(x, order) for x in flat_factors(e)))
+        fs = [canon_form(x, order) for x in flat_factors(e)]
+        if any(f == ("0",) for f in fs):
+            return ("0",)
+        fs = [f for f in fs if f != ("1",)]
+        if not fs:
+            return ("1",)
+        if len(fs) == 1:
+            return fs[0]
+        return ("M", tuple(sorted(fs, key=repr)))
     if isinstance(e, dsl.Fraction):
-        kn, kd = canon_key(e.numerator, order), canon_key(e.denominator, order)
-        if kd == (4, "1"):
-            return kn
-        if kn == kd:
-            return (4, "1")
-        return (3, kn, kd)
-    if isinstance(e, (dsl.One, dsl.Zero)):
-        return (4, e.to_text())
+        n, d = canon_form(e.numerator, order), canon_form(e.denominator, order)
+        if d == ("1",):
+            return n
+        if n == d:
+            return ("1",)
+        return ("F", n, d)
+    if isinstance(e, dsl.One):
+        return ("1",)
+    if isinstance(e, dsl.Zero):
+        return ("0",)
+    if isinstance(e, dsl.QFactor):
+        return ("Q", tuple(sorted(v.name for v in e.domain)), tuple(sorted(v.name for v in e.codomain)))
     raise TypeError(type(e))
+
+
+def _form_key(f):
+    if f[0] == "P":
+        return (0, f[2][0]) if f[1] is None else (-1, f[1], f[2][0])
+    if f[0] == "S":
+        return (1, *_form_key(f[2]))
+    if f[0] == "M":
+        return (2, *sorted(_form_key(x) for x in f[1]))
+    if f[0] == "F":
+        return (3, _form_key(f[1]), _form_key(f[2]))
+    if f[0] == "Q":
+        return (-5, f[1][0] if f[1] else "", f[2][0] if f[2] else "")
+    return (4, f[0])
+
+
+def canon_key(e, order):
+    """the intended sort key of the canonical form of e (see canon_form)"""
+    return _form_key(canon_form(e, order))
 
 
 def flat_factors(e):
@@ -98,7 +128,7 @@ def has_key_tie(e, order=xo.NAMES):
         for a, b in itt.combinations(fs, 2):
             simple = isinstance(a, dsl.Probability) or isinstance(b, dsl.Probability)
             if a != b and not _same_up_to_order(a, b) and (spec_key(a) == spec_key(b) or canon_key(a, order) == canon_key(b, order)
-                                                           or (simple and _smallest_child(a) == _smallest_child(b))):
+                                                           or (simple and (_smallest_child(a) == _smallest_child(b) or _leading(a) & _leading(b)))):
                 return True
         return any(has_key_tie(x, order) for x in fs)
     if isinstance(e, dsl.Sum):
@@ -106,6 +136,30 @@ def has_key_tie(e, order=xo.NAMES):
     if isinstance(e, dsl.Fraction):
         return has_key_tie(e.numerator, order) or has_key_tie(e.denominator, order)
     return False
+
+
+def _leading(e):
+    """Candidate leading child names of the canonical form of e (conservative: a sum whose nested sums collapse onto an unconditioned
+    joint contributes the smallest child that survives the summation, besides the candidates of its body)."""
+    dsl = concrete.y0mod("y0.dsl")
+    if isinstance(e, dsl.Probability):
+        return {min(v.name for v in e.children)}
+    if isinstance(e, dsl.Sum):
+        out = set(_leading(e.expression))
+        ranges, b = set(), e
+        while isinstance(b, dsl.Sum):
+            ranges |= {r.name for r in b.ranges}
+            b = b.expression
+        if isinstance(b, dsl.Probability) and not b.parents:
+            rest = [v.name for v in b.children if v.name not in ranges]
+            if rest:
+                out.add(min(rest))
+        return out
+    if isinstance(e, dsl.Product):
+        return set().union(*[_leading(x) for x in e.expressions]) if e.expressions else set()
+    if isinstance(e, dsl.Fraction):
+        return _leading(e.numerator) | _leading(e.denominator)
+    return set()
 
 
 def _smallest_child(e):
@@ -189,9 +243,45 @@ def run_case(blob):
                 cp = canon.canonicalize(p, o)
             except ZeroDivisionError:
                 continue
-            if cp != c1:
+            if cp != c1 and not _tied_permutation(cp, c1):
                 return f"presentation dependent: {p} -> {cp}, but {e} -> {c1}"
     return None
+
+
+def _tied_permutation(a, b):
+    """The two canonical forms differ only in the relative order of factors whose (documented) sort keys are equal: the class K1 of
+    the open known finding (ties are broken by input order), recognised on the outputs -- nested sums, unit factors and nested
+    fractions make it impossible to predict every tie from the input."""
+    dsl = concrete.y0mod("y0.dsl")
+    if a == b:
+        return True
+    if type(a) is not type(b):
+        return False
+    if isinstance(a, dsl.Product):
+        if len(a.expressions) != len(b.expressions):
+            return False
+        ka, kb = [spec_key(x) for x in a.expressions], [spec_key(x) for x in b.expressions]
+        if ka != kb or any(x > y for x, y in zip(ka, ka[1:])):
+            return False            # both must be sorted by key, with the same key sequence
+        # within each run of equal keys the factors must match up to order (recursively)
+        i = 0
+        while i < len(ka):
+            j = i
+            while j < len(ka) and ka[j] == ka[i]:
+                j += 1
+            left, right = list(a.expressions[i:j]), list(b.expressions[i:j])
+            for x in left:
+                m = next((y for y in right if _tied_permutation(x, y)), None)
+                if m is None:
+                    return False
+                right.remove(m)
+            i = j
+        return True
+    if isinstance(a, dsl.Sum):
+        return a.ranges == b.ranges and _tied_permutation(a.expression, b.expression)
+    if isinstance(a, dsl.Fraction):
+        return _tied_permutation(a.numerator, b.numerator) and _tied_permutation(a.denominator, b.denominator)
+    return False
 
 
 def wide_products(rng, n):
